@@ -1,9 +1,9 @@
 (* C16 — digitised images are bounded, monotone, saturating and never wrap.
    Only statements here; proofs live in Proofs/.  Gen_C16 is regenerated from
-   pyxel/util/misc.py (get_dtype) on every run. *)
+   pyxel/util/misc.py (get_dtype) and from the three detector-level converter models on every run. *)
 From Coq Require Import ZArith List Bool Reals Lia.
 From Flocq Require Import Core BinarySingleNaN.
-From PyxelV Require Import Lib.B64 Model.Adc Proofs.AdcChain Proofs.AdcFloat Proofs.AdcRange Proofs.AdcSar Proofs.AdcSar0 Proofs.AdcWitness.
+From PyxelV Require Import Lib.B64 Model.Adc Proofs.AdcChain Proofs.AdcFloat Proofs.AdcRange Proofs.AdcSimple Proofs.AdcSar Proofs.AdcSar0 Proofs.AdcFrame Proofs.AdcWitness.
 From PyxelGen Require Import Gen_C16.
 Import ListNotations.
 Open Scope Z_scope.
@@ -20,13 +20,45 @@ Theorem C16_dtype_refuses_outside :
 Proof. apply chain_refuses_sound. vm_compute. reflexivity. Qed.
 Print Assumptions C16_dtype_refuses_outside.
 
-(* ---- simple converter: a higher voltage never yields a lower code.
-   For ALL finite ranges vmin < vmax, all resolutions, all non-NaN voltages x <= y (infinities
-   included), whenever both casts to the unsigned type are defined. No bound on the range. *)
-Theorem C16_monotone :
-  forall (bits : Z) (vmin vmax : b64), 0 <= bits ->
+(* ================================================================ simple converter
+   (clip, scale by 2^bits - 1 in double precision, truncate, clamp to the largest double not above full
+   scale, cast; voltages at or above the range maximum are set to full scale).
+   All statements: EVERY resolution 0..64, ALL finite ranges vmin < vmax (no bound on the span), ALL
+   non-NaN voltages, infinities included. *)
+
+(* ---- only integers from 0 to 2^bits - 1, whatever the width of the type *)
+Theorem C16_range :
+  forall (bits : Z) (vmin vmax : b64), 0 <= bits <= 64 ->
   is_finite vmin = true -> is_finite vmax = true -> (B2R vmin < B2R vmax)%R ->
-  forall (w : Z) (x y : b64) (cx cy : Z),
+  forall (w : Z) (x : b64) (c : Z), bis_nan x = false ->
+  simple_code w bits vmin vmax x = Some c ->
+  0 <= c <= 2 ^ bits - 1.
+Proof. exact simple_range. Qed.
+Print Assumptions C16_range.
+
+(* ---- never wraps: with the width get_dtype chooses, the float -> unsigned cast of every pixel is
+   defined (its operand is an integer in 0 .. 2^bits - 1 < 2^w), provided the span vmax - vmin itself
+   is a finite double (|vmax - vmin| < 1.8e308) *)
+Theorem C16_never_wraps :
+  forall (bits : Z) (vmin vmax : b64), 1 <= bits <= 64 ->
+  is_finite vmin = true -> is_finite vmax = true -> (B2R vmin < B2R vmax)%R ->
+  is_finite (bsub vmax vmin) = true ->
+  forall (w : Z), chain_width src_dtype_chain bits = Some w ->
+  forall (x : b64), bis_nan x = false ->
+  exists c, simple_code w bits vmin vmax x = Some c /\ 0 <= c <= 2 ^ bits - 1 /\ c < 2 ^ w.
+Proof.
+  intros bits vmin vmax Hb Fmin Fmax Hr Fs w Hw x Nx.
+  destruct (chain_fits src_dtype_chain ltac:(vm_compute; reflexivity) bits w Hb Hw) as [Hle Hlt].
+  destruct (simple_defined bits vmin vmax ltac:(lia) Fmin Fmax Hr w x Hle Fs Nx) as [c [E R]].
+  exists c. split; [exact E|]. split; [exact R|lia].
+Qed.
+Print Assumptions C16_never_wraps.
+
+(* ---- a higher voltage never yields a lower code *)
+Theorem C16_monotone :
+  forall (bits : Z) (vmin vmax : b64), 0 <= bits <= 64 ->
+  is_finite vmin = true -> is_finite vmax = true -> (B2R vmin < B2R vmax)%R ->
+  forall (w : Z) (x y : b64) (cx cy : Z), bits <= w ->
   bis_nan x = false -> bis_nan y = false -> ble x y = true ->
   simple_code w bits vmin vmax x = Some cx ->
   simple_code w bits vmin vmax y = Some cy ->
@@ -34,30 +66,63 @@ Theorem C16_monotone :
 Proof. exact simple_monotone. Qed.
 Print Assumptions C16_monotone.
 
-(* ---- simple converter: voltages at or below the range minimum map to 0 (also -inf), and the cast
-   is defined there *)
+(* ---- voltages at or below the range minimum map to 0 (also -inf), and the cast is defined there *)
 Theorem C16_low_saturates :
-  forall (bits : Z) (vmin vmax : b64), 0 <= bits ->
+  forall (bits : Z) (vmin vmax : b64), 0 <= bits <= 64 ->
   is_finite vmin = true -> is_finite vmax = true -> (B2R vmin < B2R vmax)%R ->
-  forall (w : Z) (x : b64), bits <= 64 -> 0 <= w ->
+  forall (w : Z) (x : b64), 0 <= w ->
   bis_nan x = false -> ble x vmin = true ->
   simple_code w bits vmin vmax x = Some 0.
 Proof. exact simple_low_saturates. Qed.
 Print Assumptions C16_low_saturates.
 
-(* ---- simple converter: only integers from 0 to 2^bits - 1, for resolutions up to 52 bits, ALL finite
-   ranges and ALL non-NaN voltages (the statement for 54..64 bits is refuted below; 53 bits is open:
-   not proved, no counterexample found) *)
-Theorem C16_range_partial :
-  forall (bits : Z) (vmin vmax : b64), 1 <= bits <= 52 ->
-  is_finite vmin = true -> is_finite vmax = true -> (B2R vmin < B2R vmax)%R ->
-  forall (w : Z) (x : b64) (c : Z), bis_nan x = false ->
-  simple_code w bits vmin vmax x = Some c ->
-  0 <= c <= 2 ^ bits - 1.
-Proof. exact simple_range. Qed.
-Print Assumptions C16_range_partial.
+(* ---- voltages at or above the range maximum (also +inf) map to full scale 2^bits - 1 EXACTLY, for
+   every resolution up to 64 bits and every range (this is the statement that was refuted before the
+   repair: C16-F8a/b/c) *)
+Theorem C16_high_saturates :
+  forall (bits : Z) (vmin vmax : b64), 0 <= bits <= 64 ->
+  forall (w : Z) (x : b64), bits <= w -> bge x vmax = true ->
+  simple_code w bits vmin vmax x = Some (2 ^ bits - 1).
+Proof. exact simple_high_saturates. Qed.
+Print Assumptions C16_high_saturates.
 
-(* ---- successive-approximation converter (integer accumulator), EVERY resolution: every code lies in
+(* the same with the width taken from get_dtype, in the form of the former `_full` statement *)
+Theorem C16_full_scale_at_maximum :
+  forall (bits : Z) (vmin vmax : b64), 4 <= bits <= 64 ->
+  is_finite vmin = true -> is_finite vmax = true -> blt vmin vmax = true ->
+  forall w, chain_width src_dtype_chain bits = Some w ->
+  simple_code w bits vmin vmax vmax = Some (2 ^ bits - 1).
+Proof.
+  intros bits vmin vmax Hb Fmin Fmax Hlt w Hw.
+  destruct (chain_fits src_dtype_chain ltac:(vm_compute; reflexivity) bits w ltac:(lia) Hw) as [Hle _].
+  apply simple_high_saturates; [lia|exact Hle|].
+  unfold bge. rewrite ble_finite by assumption. apply Rle_bool_true. apply Rle_refl.
+Qed.
+Print Assumptions C16_full_scale_at_maximum.
+
+(* ---- NaN, stated explicitly: a NaN voltage is below no maximum and is clamped by nothing
+   (np.minimum propagates it), so the cast of that pixel is undefined — for every setting.  NaN
+   voltages are outside the property's quantifier; this is what the model says happens to them. *)
+Theorem C16_nan_undefined :
+  forall (w bits : Z) (vmin vmax : b64), simple_code w bits vmin vmax bnan = None.
+Proof. exact simple_nan. Qed.
+Print Assumptions C16_nan_undefined.
+
+(* ---- whole frames: on sorted NaN-free voltages the model's image is defined everywhere and satisfies
+   the specification the implementation's image is judged against (range, both saturations, sorted
+   codes, type width) *)
+Theorem C16_simple_frame_meets_spec :
+  forall (bits : Z) (vmin vmax : b64), 1 <= bits <= 64 ->
+  is_finite vmin = true -> is_finite vmax = true -> (B2R vmin < B2R vmax)%R ->
+  is_finite (bsub vmax vmin) = true ->
+  forall xs, no_nan xs = true -> sortedB xs = true ->
+  exists w cs, simple_frame src_dtype_chain bits vmin vmax xs = Some (w, map Some cs) /\
+               simple_spec bits vmin vmax xs w cs = true.
+Proof. apply simple_frame_meets_spec. vm_compute. reflexivity. Qed.
+Print Assumptions C16_simple_frame_meets_spec.
+
+(* ================================================================ successive-approximation converter
+   (integer accumulator, double-precision remainder), EVERY resolution: every code lies in
    0 .. 2^bits - 1 for ALL voltages (NaN and infinities included) and ALL reference voltages, the
    unsigned accumulator never wraps and the result is defined whenever the type is wide enough (it is:
    C16_dtype_wide_enough), and the code is non-decreasing in the voltage (finite voltages, finite
@@ -84,6 +149,14 @@ Theorem C16_sar_monotone :
 Proof. exact sar_monotone. Qed.
 Print Assumptions C16_sar_monotone.
 
+Theorem C16_sar_frame_meets_spec :
+  forall (bits : Z) (vmax : b64), 1 <= bits <= 64 ->
+  is_finite vmax = true -> (0 <= B2R vmax)%R ->
+  forall xs, all_finite xs = true -> sortedB xs = true ->
+  exists w cs, sar_frame src_dtype_chain bits vmax xs = Some (w, map Some cs) /\ sar_spec bits xs w cs = true.
+Proof. apply sar_frame_meets_spec. vm_compute. reflexivity. Qed.
+Print Assumptions C16_sar_frame_meets_spec.
+
 (* ---- the noisy variant with zero strengths and zero noises reproduces the noise-free converter
    exactly: EVERY resolution, EVERY voltage (NaN, infinities included), every finite vmax >= 0 *)
 Theorem C16_sar_noise0 :
@@ -93,43 +166,35 @@ Theorem C16_sar_noise0 :
 Proof. exact sar0_eq_sar. Qed.
 Print Assumptions C16_sar_noise0.
 
-(* non-vacuity: the hypotheses are met by an ordinary setting, and the conclusion is not trivial *)
+(* ================================================================ non-vacuity *)
+
+(* the hypotheses are met by an ordinary setting, and the conclusions are not trivial *)
 Example C16_hyps_satisfiable :
-  is_finite (pzero : b64) = true /\ is_finite (bofZ 6) = true /\
-  ble (bofZ 3) (bofZ 6) = true /\ ble ninf pzero = true /\
-  simple_code 8 8 pzero (bofZ 6) (bofZ 3) = Some 127 /\ simple_code 8 8 pzero (bofZ 6) (bofZ 6) = Some 255 /\
-  simple_code 8 8 pzero (bofZ 6) ninf = Some 0.
+  is_finite (pzero : b64) = true /\ is_finite (bofZ 6) = true /\ is_finite (bsub (bofZ 6) pzero) = true /\
+  ble (bofZ 3) (bofZ 6) = true /\ ble ninf pzero = true /\ bge pinf (bofZ 6) = true /\
+  chain_width src_dtype_chain 8 = Some 8 /\
+  no_nan [ninf; pzero; bofZ 3; bofZ 6; pinf] = true /\ sortedB [ninf; pzero; bofZ 3; bofZ 6; pinf] = true /\
+  map (simple_code 8 8 pzero (bofZ 6)) [ninf; pzero; bofZ 3; bofZ 6; pinf]
+    = [Some 0; Some 0; Some 127; Some 255; Some 255].
 Proof. vm_compute. repeat split; reflexivity. Qed.
 
-(* ---- the full statement "voltages at or above the range maximum map to full scale, and codes stay
-   within 0 .. 2^bits-1, for every allowed setting" is FALSE of the code as written: *)
-Definition C16_high_saturates_full : Prop :=
-  forall (bits : Z) (vmin vmax : b64), 4 <= bits <= 64 ->
-  is_finite vmin = true -> is_finite vmax = true -> blt vmin vmax = true ->
-  forall w, chain_width src_dtype_chain bits = Some w ->
-  simple_code w bits vmin vmax vmax = Some (2 ^ bits - 1).
-
-Theorem C16_high_saturates_refuted : ~ C16_high_saturates_full.
+(* the inputs that refuted the full statements before the repairs (C16-F8a, F8b, F8c: the unclamped
+   scaled value is still 2^28 - 2, 2^54, 2^64 there) now give full scale, and stay below it just under
+   the maximum; an intermediate overflow to +inf is clamped instead of making the cast undefined *)
+Example C16_formerly_refuted_inputs :
+  btruncZ (simple_scaled 28 pzero w_short_vmax w_short_vmax) = Some (2 ^ 28 - 2) /\
+  simple_code 32 28 pzero w_short_vmax w_short_vmax = Some (2 ^ 28 - 1) /\
+  btruncZ (simple_scaled 54 (mk (-3) (-1)) (mk 9 (-2)) (mk 9 (-2))) = Some (2 ^ 54) /\
+  simple_code 64 54 (mk (-3) (-1)) (mk 9 (-2)) (mk 9 (-2)) = Some (2 ^ 54 - 1) /\
+  simple_code 64 54 (mk (-3) (-1)) (mk 9 (-2)) (bpred (mk 9 (-2))) = Some (2 ^ 54 - 2) /\
+  btruncZ (simple_scaled 64 pzero (bofZ 1) (bofZ 1)) = Some (2 ^ 64) /\
+  simple_code 64 64 pzero (bofZ 1) (bofZ 1) = Some (2 ^ 64 - 1) /\
+  simple_code 64 64 pzero (mk 1 1000) (mk 1 999) = Some (2 ^ 64 - 2048).
 Proof.
-  intros H. specialize (H 28 pzero w_short_vmax ltac:(lia) eq_refl eq_refl (proj1 high_saturation_short_witness) 32 eq_refl).
-  rewrite (proj2 high_saturation_short_witness) in H. discriminate.
+  pose proof short_scaled_value as [_ A]. pose proof short_repaired as [B _].
+  pose proof high_bits_repaired as [C [D E]]. pose proof wrap_repaired as [F [G _]].
+  pose proof overflow_clamped as [_ H]. repeat split; assumption.
 Qed.
-Print Assumptions C16_high_saturates_refuted.
-
-Theorem C16_range_high_bits_refuted :
-  exists bits vmin vmax c, 4 <= bits <= 64 /\ blt vmin vmax = true /\
-  simple_code 64 bits vmin vmax vmax = Some c /\ 2 ^ bits - 1 < c.
-Proof.
-  exists 54, (mk (-3) (-1)), (mk 9 (-2)), (2 ^ 54).
-  split; [lia|]. split; [exact (proj1 high_bits_exceed_witness)|]. split; [exact (proj2 high_bits_exceed_witness)|lia].
-Qed.
-Print Assumptions C16_range_high_bits_refuted.
-
-Theorem C16_wrap_refuted :
-  exists vmin vmax, blt vmin vmax = true /\
-  btruncZ (simple_scaled 64 vmin vmax vmax) = Some (2 ^ 64) /\ simple_code 64 64 vmin vmax vmax = None.
-Proof. exists pzero, (bofZ 1). split; [reflexivity|exact wrap_witness]. Qed.
-Print Assumptions C16_wrap_refuted.
 
 (* the SAR converters at the resolutions that used to fail (C16-F8d, repaired) *)
 Example C16_sar_full_scale_high_bits :
